@@ -31,6 +31,15 @@ CLAIMED = {
  "C07": ("seq", "exploration",
          "Seeded deterministic simulation with a ns-resolution virtual clock and virtual sleep: arrivals in bursts and on the scheduled slot +-1 ns/ms against flow and hotspot throttling rules, observed through perform_checking (queues build up) and through build() (the clock must really have moved to the scheduled time).",
          "DESIGN.md §4 C07 / appendix A.4", "deterministic simulation: virtual clock and virtual sleep + seeded arrivals vs reference pacing model", SEQ_NOTE),
+ "C08": ("seq", "exploration",
+         "Seeded deterministic simulation of 40-200 simulated seconds of real build() calls per run on a 1..20 ms grid through demand phases (saturating, about q/c, below, idle 0..5p s) under the virtual clock; trajectory invariants on per-second admissions and on the allowance read through the calculator (upper bound q, floor about q/c, monotone ramp reaching q within 2p+2 s, cold start and cold again after idle >= 2p).",
+         "DESIGN.md §4 C08", "deterministic simulation: long virtual-time trajectories vs trajectory invariants", SEQ_NOTE),
+ "C09": ("seq", "exploration",
+         "Seeded deterministic simulation of inbound/outbound traffic histories with injected load/CPU readings; system rule sets are (re)loaded mid-history with thresholds resolved below/equal/above the reference's predicted observation, every inbound decision, block type, named rule and reported value compared with the reference.",
+         "DESIGN.md §4 C09 / appendix A.5", "deterministic simulation: virtual clock + injected readings + seeded histories vs reference inbound model", SEQ_NOTE),
+ "C10": ("seq", "exploration",
+         "Seeded deterministic simulation of management histories (load-all, load-for-resource, append, clear, clear-for-resource) per family over pools of valid, invalid and equal-but-differently-identified rules with seeded hash order; reported rules, live controller/breaker lists and (flow, isolation) behaviourally measured enforcement compared with a reference map after every call; calls under catch_unwind with a health probe.",
+         "DESIGN.md §4 C10", "deterministic simulation: seeded management histories and hash order vs reference rule map", SEQ_NOTE),
 }
 
 PENDING_REASON = "check not built yet in this round (design in DESIGN.md §4); not claimed until it runs"
